@@ -66,6 +66,10 @@ def run_rac(prop, tier, seed, timeout):
     return r
 
 
+# properties whose contracts speak about uninterpreted pandas operations (pyvc/th_pandas.py): equal results can be different terms
+ABSTRACT_MODEL = {'C03', 'C08', 'C12', 'C13', 'C17'}
+
+
 def tree_digest():
     """sha256 per source file of the tree under test"""
     import hashlib, glob
@@ -197,6 +201,8 @@ def check(prop, tier, seed):
         for label, reason in ctx.undecided:
             undecided.append('%s: %s' % (label, reason))
         names_now = set()
+        # sections in which an obligation that guards the verified subset fails: the rest of that section speaks about code outside the model
+        tainted = {r.ob.meta.get('section') for r in ded['results'] if r.status != 'unsat' and r.ob.meta.get('subset_guard')} - {None}
         for r in ded['results']:
             n_obl += 1
             names_now.add(base_name(r.name))
@@ -260,10 +266,12 @@ def check(prop, tier, seed):
             elif r.ob.meta.get('conservative'):
                 undecided.append('%s: the ownership analysis cannot show this site writes fresh objects only (conservative analysis), and the native probe found no effect: %s' % (
                     r.name, str(verdict.get('detail', ''))[:160]))
-            elif verdict.get('fails') is False:
+            elif verdict.get('fails') is False and (prop in ABSTRACT_MODEL or r.ob.meta.get('subset_guard') or r.ob.meta.get('section') in tainted):
                 # the obligation fails in the encoding, but its counterexample - concretised, or the native battery of this clause - holds on the real
-                # code: the model is an artefact of an abstraction (an uninterpreted operation, an approximated construct) that the changed code no
-                # longer fits, not a failing input.  Reported, not an alarm.
+                # code, AND the encoding is an abstraction here: the contract speaks about uninterpreted pandas operations (a refactoring builds a
+                # different but equal term), or the obligation guards the verified subset (what follows it on that path is not modelled).  The model is
+                # an artefact of the abstraction, not a failing input.  Reported, not an alarm.  (Over the exact theories - integers, dates, value
+                # universes, lists, maps - a failing obligation that was discharged on the baseline is reported even without a native witness.)
                 undecided.append('%s: fails in the encoding, but no counterexample reproduces on the real code (%s)' % (r.name, str(verdict.get('detail', ''))[:140]))
             elif in_lock:
                 violations.append((key, path, ' no-failing-input-found', verdict.get('detail', '')))
